@@ -1,8 +1,9 @@
 """C18 -- printing is an observation."""
 import ast
 
-from ..core import AnalysisError, src, qualname_of, enclosing_function
+from ..core import AnalysisError, src, qualname_of, enclosing_function, parents
 from .. import effects
+from ..rules_pyx import N
 from ..pysym import show
 
 EXPLANATION = (
@@ -81,10 +82,58 @@ def check(repo, rep, tier):
         raise AnalysisError('embedded positive example: expected exactly the two mutations on line 9, analysis reports lines %s' % lines)
     rep.ok('R18.1', 'sa/checks/c18.py POSITIVE_EXAMPLE', 'the analysis flags token[..] = token.pop(..) on an aliased token and not the same edit on dict(token)')
     n = 0
-    for mod, fn, is_method in printer_functions(repo):
-        n += 1
+    fns = printer_functions(repo)
+    # private module-level helpers (a closure moved out of its function) get the taint of their arguments at the call
+    # sites inside the module instead of "every parameter is a parse result": a work list built by the caller for this
+    # call is not caller-visible, whatever it is named
+    helpers = {}
+    for mod, fn, is_method in fns:
+        top = isinstance(getattr(fn, '_parent', None), ast.Module)
+        if top and fn.name.startswith('_') and not fn.name.endswith('__'):
+            used = [c for c in ast.walk(mod.tree) if isinstance(c, ast.Call) and isinstance(c.func, ast.Name) and c.func.id == fn.name
+                    and not any(p_ is fn for p_ in parents(c))]
+            exported = any(isinstance(x, ast.Name) and x.id == fn.name and not isinstance(getattr(x, '_parent', None), ast.Call)
+                           for x in ast.walk(mod.tree))
+            if used and not exported:
+                helpers[(mod.rel, fn.name)] = {'self': set(), 'elems': set(), 'fn': fn}
+    results = {}
+
+    def analyse(mod, fn, is_method, tainted, elems_only=()):
+        calls = []
+        muts = effects.mutations(fn, tainted, elems_only=elems_only, calls_out=calls)
+        for t, selfs, elems, kwt in calls:
+            f = t[1]
+            name = f[1] if f[0] == 'name' else (f[1] if f[0] == 'func' else None)
+            h = helpers.get((mod.rel, name))
+            if h is None or h['fn'] is fn:
+                continue
+            ps = [a.arg for a in h['fn'].args.args]
+            for i, p_ in enumerate(ps):
+                if i < len(selfs):
+                    if selfs[i]:
+                        h['self'].add(p_)
+                    if elems[i]:
+                        h['elems'].add(p_)
+                elif p_ in kwt:
+                    if kwt[p_][0]:
+                        h['self'].add(p_)
+                    if kwt[p_][1]:
+                        h['elems'].add(p_)
+        return muts
+    pending = []
+    for mod, fn, is_method in fns:
+        if (mod.rel, fn.name) in helpers and helpers[(mod.rel, fn.name)]['fn'] is fn:
+            pending.append((mod, fn, is_method))
+            continue
         tainted = set(tainted_params(fn, is_method)) | free_tainted(fn)
-        muts = effects.mutations(fn, tainted)
+        results[id(fn)] = (mod, fn, tainted, analyse(mod, fn, is_method, tainted))
+    for _ in range(3):          # helpers calling helpers: taint settles in a few rounds
+        for mod, fn, is_method in pending:
+            h = helpers[(mod.rel, fn.name)]
+            results[id(fn)] = (mod, fn, set(h['self']), analyse(mod, fn, is_method, set(h['self']), h['elems'] - h['self']))
+    for mod, fn, is_method in fns:
+        n += 1
+        mod, fn, tainted, muts = results[id(fn)]
         w = '%s:%s %s' % (mod.rel, fn.lineno, qualname_of(fn))
         if not muts:
             rep.ok('R18.1', w, '%s modifies no caller-visible object (tainted: %s)' % (qualname_of(fn), sorted(tainted)))
@@ -106,8 +155,30 @@ def check(repo, rep, tier):
             nacc += 1
             deco = [src(d) for d in s.decorator_list]
             tainted = [a.arg for a in s.args.args]
-            for inner in [x for x in ast.walk(s) if isinstance(x, ast.FunctionDef)]:
-                muts = effects.mutations(inner, set(tainted) | {a.arg for a in inner.args.args})
+            inners = [x for x in ast.walk(s) if isinstance(x, ast.FunctionDef)]
+            taint = {id(s): (set(tainted), set())}
+            for x in inners[1:]:
+                taint[id(x)] = (set(), set())
+            found_muts = {}
+            for _ in range(3):
+                for inner in inners:
+                    calls = []
+                    ts, te = taint[id(inner)]
+                    # a closure sees the accessor's own parameters (the tree) as free variables
+                    free = set(tainted) if inner is not s else set()
+                    found_muts[id(inner)] = effects.mutations(inner, ts | free, elems_only=te, calls_out=calls)
+                    for t, selfs, elems, kwt in calls:
+                        f = t[1]
+                        callee = [x for x in inners[1:] if (f[0] == 'func' and f[2] == id(x)) or f == N(x.name)]
+                        for x in callee:
+                            ps = [a.arg for a in x.args.args]
+                            for i, p_ in enumerate(ps):
+                                if i < len(selfs) and selfs[i]:
+                                    taint[id(x)][0].add(p_)
+                                if i < len(elems) and elems[i]:
+                                    taint[id(x)][1].add(p_)
+            for inner in inners:
+                muts = found_muts[id(inner)]
                 for node, tgt, what in muts:
                     rep.violation('R18.2', '%s:%s Tree.%s' % (tm.rel, node.lineno, s.name), '%s:Tree.%s:mutates' % (tm.rel, s.name),
                                   'Tree.%s modifies `%s` (%s)' % (s.name, show(tgt)[:50], what))
